@@ -16,7 +16,7 @@ VEC_RULE = ("engine vec — exhaustive: (A) initial contents of length 0..3 x ev
             "subscribers; (E) entry(i) for every index 0..len+1, unused / set / remove, on the vector and in a transaction; (LT) 120 (thorough 600) transactions of 17..40 operations; (C) capacities {1,2,3,4,5,7,8} x 0..B+3 unpolled updates x transactions x vector dropped or not x pre-polled or not; (D) every "
             "keep/set/remove/set-remove/stop decision sequence over vectors of length <=3 (thorough 4), direct and in a transaction; random: 2500 (thorough 150000) "
             "histories of 10..50 (80) steps with up to 4 subscribers of both flavours created/dropped/polled at random, capacities {1,2,3,5,7,16,64}, entries, "
-            "transactions, final drop of the vector; the model's ghost replica of every polled subscriber is compared with the harness's strict replica. Engine vconc (C05/C06/C08) — a writer thread against a plain and a "
+            "transactions, final drop of the vector; the model's ghost replica of every polled subscriber is compared with the harness's strict replica. Engine vstep (C05/C06/C08) — poll_next taken apart into its receive operations with the receive hook: exhaustive over capacities {1,2,4} x flavour x 0..B+2 messages queued before the poll x what is injected after each of the first 3 (thorough 4) receive operations (nothing / 1 update / 2 updates / B+1 updates = lag / a two-operation transaction / the drop of the vector), 6912 cases; random: 1500 (thorough 60000) histories with up to 3 subscribers, random operations between polls and random injections after up to 6 receive operations of a poll; every line compared with the fine-grained Lean model SOV.micro. Engine vconc (C05/C06/C08) — a writer thread against a plain and a "
             "batched stream polled on two other threads, capacities {1,2,3,4,8}, 200..5000 updates, 3000 (thorough 40000) rounds, oracles only. Every case is non-trivial (it mutates and delivers); distinct = distinct (ops, results) traces.")
 
 def vec_prop(mods, expl, extra_assump=(), engines=None):
@@ -81,16 +81,16 @@ PROPS = {
                "untouched on early exit. Tied to the code by exhaustive + random differential runs (all indices incl. out of range with catch_unwind, all decision sequences on vectors <= 3)."),
         technique="Lean 4 proof (induction over the traversal loop, case analysis per mutator) + model/implementation correspondence",
         design_ref="DESIGN.md §6 C17"),
-    "C05": dict(vec_prop(["EyeballVerif.Props.C05", "EyeballVerif.Props.StreamReach"],
-        "c05_replay_inv (at every reachable state — any capacity, any finite sequence of updates, traversals, transactions, subscriptions, drops and polls — every live receiver's replica is defined and replaying what the channel still owes it yields the current contents), c05_delivered_applicable, c05_caught_up_equal, c05_never_panics; c05_exec_faithful: for every mutator and contents, the recorded diff replayed strictly on the contents before gives the contents after; no diff only if nothing changed; every diff is validOn the contents", engines=[{"name": "vec"}, {"name": "vconc"}]),
+    "C05": dict(vec_prop(["EyeballVerif.Props.C05", "EyeballVerif.Props.StreamReach", "EyeballVerif.Props.StreamStep", "EyeballVerif.Lemmas.StepInv"],
+        "c05_replay_inv (at every reachable state — any capacity, any finite sequence of updates, traversals, transactions, subscriptions, drops and polls — every live receiver's replica is defined and replaying what the channel still owes it yields the current contents), c05_delivered_applicable, c05_caught_up_equal, c05_never_panics; c05_exec_faithful: for every mutator and contents, the recorded diff replayed strictly on the contents before gives the contents after; no diff only if nothing changed; every diff is validOn the contents. Fine-grained (Props/StreamStep, Lemmas/StepInv): the same at the granularity of single receive operations — poll_next is a sequence of recv()/try_recv() operations between which the writer (another thread) may publish, commit or be dropped; the invariant SInv (VInv with the replica following the cursor + one clause per phase: drain / inside handle_lag) is preserved by every receive operation (sinv_micro) and every other event (sinv_ev, via the extension relation Ext), hence along every interleaving (sinv_run); micro_return: what poll_next hands out when it returns; c05s_never_panics (the unreachable! of handle_lag too), c05s_delivered_applicable", engines=[{"name": "vec"}, {"name": "vstep"}, {"name": "vconc"}]),
         claim=("Lean 4 theorems: stream invariant VInv preserved by every event (vinv_vstep) hence c05_replay_inv at every reachable state: every delivered diff was applicable to the subscriber's replica, and replica + still-owed diffs = current contents; c05_exec_faithful (every call's diff, replayed strictly on the state before, yields the state after; documented no-ops record nothing; exactly one diff otherwise) "
                "plus the receiver-level theorems shared with C06/C08; tied to the code by the vec engine, whose implementation-side oracle replays every delivered diff on a strict replica "
                "and compares it with the vector after every message, for plain and batched streams."),
         technique="Lean 4 proof (reachable-state invariant by induction over event sequences; per-operation refinement) + model/implementation correspondence",
         design_ref="DESIGN.md §6 C05"),
-    "C06": dict(vec_prop(["EyeballVerif.Props.C06", "EyeballVerif.Props.StreamReach"],
+    "C06": dict(vec_prop(["EyeballVerif.Props.C06", "EyeballVerif.Props.StreamReach", "EyeballVerif.Props.StreamStep", "EyeballVerif.Lemmas.StepInv"],
         "c06_lagged_reset_current (at every reachable state a receiver more than a window behind gets exactly Reset(current contents) and is then in sync), c06_pending_synced (Pending only to a receiver whose replica equals the contents); c06_plain_reset / c06_batched_reset: a Reset is handed out only when more than B messages were pending, carries the newest recorded state and consumes the log; "
-        "c06_window_ge_capacity: B >= capacity; c06_batched_consumes_all; c06_pending_consumed_all — for every log, window size and cursor", engines=[{"name": "vec"}, {"name": "vconc"}]),
+        "c06_window_ge_capacity: B >= capacity; c06_batched_consumes_all; c06_pending_consumed_all — for every log, window size and cursor. Fine-grained (any interleaving of the writer with the receive operations of a poll_next): c06s_reset_current (a receiver that lagged — also inside the batched drain loop — is handed Reset(contents current when poll_next returns), alone, and is in sync), c06s_pending_synced", engines=[{"name": "vec"}, {"name": "vstep"}, {"name": "vconc"}]),
         claim=("Lean 4 theorems: at every reachable state (any event sequence) a lagged receiver is handed Reset(current contents) and is in sync afterwards (c06_lagged_reset_current), Pending is answered only to a receiver in sync (c06_pending_synced); over every log, window size B, cursor and closed flag: Reset only if more than B >= capacity messages were pending and it carries the newest message's state "
                "(c06_plain_reset, c06_batched_reset, c06_window_ge_capacity); Pending only when nothing is left to deliver (c06_pending_consumed_all); a batched item consumes everything "
                "(c06_batched_consumes_all). Tied to the code by lag scenarios over capacities 1..8 (exhaustive in the number of unpolled updates) and random histories."),
@@ -104,9 +104,9 @@ PROPS = {
                "copy, publishes nothing for an empty batch and otherwise exactly one message carrying the whole batch (c07_commit, c07_commit_replay). Tied to the code by exhaustive transaction bodies."),
         technique="Lean 4 proof (invariant by induction over transaction events) + model/implementation correspondence",
         design_ref="DESIGN.md §6 C07"),
-    "C08": dict(vec_prop(["EyeballVerif.Props.C08", "EyeballVerif.Props.StreamReach"],
+    "C08": dict(vec_prop(["EyeballVerif.Props.C08", "EyeballVerif.Props.StreamReach", "EyeballVerif.Props.StreamStep", "EyeballVerif.Lemmas.StepInv"],
         "c08_end_final (at every reachable state a stream ends only after the vector was dropped and with the replica equal to the final contents); c08_no_early_end: for every log/window/receiver state a poll on an open channel never reports the end; c08_end_consumed_all: the end is reported only with the cursor at the end of the log; "
-        "c08_lagged_after_drop_gets_final: a lagging receiver of a dropped vector first receives Reset(final state); c08_drop_wakes", engines=[{"name": "vec"}, {"name": "vconc"}]),
+        "c08_lagged_after_drop_gets_final: a lagging receiver of a dropped vector first receives Reset(final state); c08_drop_wakes. Fine-grained: c08s_end_final (any interleaving of the drop with the receive operations: the end is reported only after the drop and on the final contents)", engines=[{"name": "vec"}, {"name": "vstep"}, {"name": "vconc"}]),
         claim=("Lean 4 theorems: at every reachable state the end is reported only after the drop and to a receiver whose replica equals the final contents (c08_end_final); over every log, window and receiver state: no end-of-stream while the sender exists (c08_no_early_end); the end is reported only after everything was delivered "
                "(c08_end_consumed_all); a receiver that lagged when the vector was dropped is first reset to the final state (c08_lagged_after_drop_gets_final — the repaired defect D6); dropping "
                "wakes every parked receiver (c08_drop_wakes). Tied to the code by drop scenarios for every capacity 1..8 x lag depth x flavour."),
@@ -315,6 +315,8 @@ ENGINES = [
      "kind_free_text": "differential correspondence (real VectorDiff vs Lean model) + implementation-side oracle"},
     {"name": "vec", "path": "harness/src/eng_vec.rs", "serves_properties": ["C05", "C06", "C07", "C08", "C17"],
      "kind_free_text": "differential correspondence (real ObservableVector/subscriber streams vs Lean model OV) + implementation-side oracles (strict replica, plain-vector reference, pending-message ledger, wake flags)"},
+    {"name": "vstep", "path": "harness/src/eng_vstep.rs", "serves_properties": ["C05", "C06", "C08"],
+     "kind_free_text": "differential correspondence at the granularity of single receive operations: the verification hook eyeball_im::verif::set_recv_hook is called after every recv()/try_recv() of a poll_next, the harness performs updates, whole transactions and the drop of the vector from inside it (the interleavings a writer on another thread produces, but deterministic and recorded), the Lean model SOV.micro replays them step by step; + implementation-side oracles (strict applicability, Reset = contents at the last receive operation, Pending only in sync, End only after the drop on the final contents, wake rule)"},
     {"name": "vconc", "path": "harness/src/eng_vconc.rs", "serves_properties": ["C05", "C06", "C08", "C09", "C13"],
      "kind_free_text": "writer on its own thread against plain and batched subscriber streams and a batched skip(1) adapter polled on three other threads (a poll is no longer atomic w.r.t. updates: the Lagged arms inside the drain loops); implementation-side oracles only (strict applicability, replica = final contents, End iff dropped) — the interleaving is not recorded, so there is no model trace"},
     {"name": "adp", "path": "harness/src/eng_adp.rs", "serves_properties": ["C09", "C10", "C11", "C12", "C13", "C14", "C15"],
